@@ -654,7 +654,7 @@ func (s session) monitor(m sink, obs []burstObs) {
 				m.Violate("C08/write/"+strings.Split(op, ":")[0]+"/wrong-result", "write result differs from a plain map", s, want, b.Results[oi])
 			}
 			if len(pubs) > 1 {
-				m.Count(fmt.Sprintf("write publishing %d events (re-entrant delete)", len(pubs)))
+				m.Count(fmt.Sprintf("write publishing %d events (re-entrant write or delete)", len(pubs)))
 			}
 			for _, pe := range pubs {
 				id, kind := pe.id, pe.kind
